@@ -245,7 +245,17 @@ class NoPanic:
             self.cursor_model(fn, B)
             if any(q == p for q, bb in P.callees(fn)):
                 self.recursive_pre(fn, B)
+        # closures that only spell out the panic message of an `unwrap_or_else` are covered by that call site
+        covered = set()
+        for p in reach:
+            for bb, t in P.fns[p].calls():
+                if callee_name(t["fn"].get("path", "")) == "unwrap_or_else" and ("option::Option" in t["fn"].get("path", "") or "result::Result" in t["fn"].get("path", "")):
+                    for c in (t.get("closures") or []):
+                        if c in P.fns and 0 in P.fns[c].diverging():
+                            covered.add(c)
         for p in sorted(reach):
+            if p in covered:
+                continue
             self.scan(P.fns[p])
         return self.records
 
@@ -649,6 +659,11 @@ class NoPanic:
             return self.rec(fn, b, "panic", self.panic_desc(fn, b, args), "open", "explicit panic is reachable")
         if name in PANICKING_CALLS and (sp.startswith("core::option::Option") or sp.startswith("core::result::Result")):
             return self.unwrap_site(fn, B, b, t, args, name)
+        if name == "unwrap_or_else" and (sp.startswith("core::option::Option") or sp.startswith("core::result::Result")) and len(t["args"]) == 2:
+            # `x.unwrap_or_else(|e| panic!(..))` is expect() with a computed message: one obligation, on x (the closure's panic is this site)
+            clos = [c for c in (t.get("closures") or []) if not c.startswith("fn:")]
+            if len(clos) == 1 and clos[0] in P.fns and 0 in P.fns[clos[0]].diverging():
+                return self.unwrap_site(fn, B, b, t, args, "unwrap")
         if f.get("trait") in ("core::ops::index::Index", "core::ops::index::IndexMut") and len(args) == 2:
             return self.index_site(fn, B, b, t, args)
         if name == "set_position" and "cursor::Cursor" in sp and len(args) == 2:
